@@ -289,8 +289,16 @@ func init() {
 			KM    string
 			Table c03Table
 			Input []string
+			Local string
 		}
 		jsonUnmarshal(w.Input, &in)
+		if in.Local != "" {
+			cs := c03LocalCase{in.Local, in.Table, in.Input}
+			j := c03LocalJob(0, cs)
+			t := c.Pool.RunOne(&j)
+			fp, what, _ := c03LocalVerdict(cs, t)
+			return fmt.Sprintf("%s\nlog: %s", what, jsonString(LastCall(t).Log)), fp
+		}
 		j := c03Job(0, in.KM, in.Table, in.Input)
 		t := c.Pool.RunOne(&j)
 		fp, what, _ := c03Verdict(in.KM, in.Table, in.Input, t)
